@@ -30,6 +30,12 @@ CHECKS = {
  "C10": dict(level="exploration", technique="deterministic simulation of the allocator's environment: both allocator WAT copies run on wazero with memory.grow gated by the simulator (refused at seeded operations), a simulated client that fills every payload byte, seeded malloc/free histories over a configuration swarm; full heap-layout oracle (tiling, free-list membership, overlap, client patterns, justified failure) after every operation; loop-fuel step bound; shrunk replayable tapes",
    text="Seeded search over configurations and malloc/free histories with injected grow refusals. After every operation the harness re-derives the complete heap layout from linear memory: blocks tile [heap_base+48, heap_ptr) exactly, every tile is live or on exactly one free list, fixed-list counts match, live blocks are aligned, inside heap and memory, large enough, non-overlapping and still hold the client's bytes; a 0 result must be justified (no fitting block on the class list or the general list, no room below heap_top, and growing refused by the environment or impossible within the maximum). Evidence, not proof.",
    note="trusts watutil.Wat2Wasm and the vendored wazero to execute the allocator faithfully; the grow seam is a text substitution of memory.grow by a wasm wrapper that asks the host and then executes the real instruction; heaps up to 64 pages", ref="DESIGN.md section 4 C10"),
+ "C11": dict(level="exploration", technique="deterministic simulation of the allocator under generated Wa driver programs: $runtime.malloc/$runtime.free/$runtime.HeapAlloc of the compiler's WAT output are routed to a simulated allocator that injects dirty fresh memory, poison on free, immediate reuse, quarantine and scattered placement from the seed; seeded operation histories; monitors (free of live blocks only, zeroed allocations, poison intact) plus differential check against the fault-free run; shrunk replayable tapes",
+   text="Seeded search over generated driver programs (compiled by the real pipeline) and operation histories. Each history runs on fresh instances with the plain allocator and under an injected allocator fault mode; a free of a non-live block, a HeapAlloc result that is not zero, a write to quarantined memory, or any step whose result differs between the two runs is a violation. This is the property's own formulation (output unchanged when freed memory is overwritten on release). Evidence, not proof.",
+   note="programs are the structured drivers of harness/wagen (typed slots, ~100-170 operations each), not arbitrary programs; an identical trap in both modes is harness trouble (exit 2), not a C11 violation; trusts Wat2Wasm and wazero to execute the rewritten module", ref="DESIGN.md section 4 C11"),
+ "C12": dict(level="exploration", technique="conservation check over the simulated allocator's malloc/free history: seeded acyclic loop bodies of generated driver programs are iterated 8..1024 times by exported calls; live block count and bytes after every iteration (host-side accounting through the WAT allocator seam) must be constant after warm-up and the real allocator's heap extent must stop growing; shrunk replayable tapes",
+   text="Seeded search over generated drivers and loop bodies; the oracle is exact equality of live blocks and live bytes at the end of every iteration (the reachable state is identical by construction) plus a no-persistent-growth check of the real heap extent. No fault or schedule is injected: this property has no such dimension, the simulator contributes the observation point and the seeded histories. Evidence, not proof.",
+   note="loop bodies are sequences of driver operations; acyclicity is guaranteed by the generator's level order and rank guard, not checked at run time", ref="DESIGN.md section 4 C12"),
  "C13": dict(level="exploration", technique="deterministic simulation of the allocator under compiled Wa map drivers: generated drivers per key kind x value kind compiled by the real pipeline, seeded operation histories checked step by step against a Go map reference model, executed under plain and under seeded allocator fault modes (poison on free, dirty fresh memory, immediate reuse, quarantine, scattered placement) with double-free / zeroing / write-after-free monitors; shrunk replayable tapes",
    text="Model-based seeded search: every put/overwrite/get/comma-ok/delete/len/range/alias result of the real runtime map (9 key kinds x 4 value kinds) is compared with a Go map model, on histories with ascending/descending/delete-in-order/churn phases and key pools from 2 to 2000, first on the plain allocator and again under an injected allocator fault mode that makes stale tree-node pointers visible. Evidence, not proof.",
    note="trusts the Go model and the key/value encodings mirrored in Go; NaN keys excluded; iteration order not compared; the allocator seam is a WAT text rewrite executed by the repository's own assembler and wazero", ref="DESIGN.md section 4 C13"),
